@@ -184,7 +184,8 @@ type World struct {
 	useInject        bool
 	injectVersioned  bool
 	injectOneFrame   bool
-	lsErrs           int // litestream sync / checkpoint calls that returned an error in this history
+	lsErrs           int    // litestream sync / checkpoint calls that returned an error in this history
+	lastFailed       string // mode of the last failed checkpoint call ("SYNC": a failed Sync, whose policy checkpoint may be PASSIVE or TRUNCATE)
 	injectPoint      string
 	atPoint          bool
 	hasOnef          bool
@@ -799,6 +800,7 @@ func (w *World) lsOp(rc *Recorder, op string) error {
 	case "S":
 		if err := w.ldb.Sync(ctx); err != nil {
 			w.lsErrs++
+			w.lastFailed = "SYNC"
 		}
 		return nil
 	case "S1": // one verify+sync round, observed for the model
@@ -815,6 +817,7 @@ func (w *World) lsOp(rc *Recorder, op string) error {
 			err := w.ldb.Checkpoint(ctx, strings.TrimPrefix(op, "CK-"))
 			if err != nil {
 				w.lsErrs++ // a checkpoint that fails after its PRAGMA leaves the F9b state behind
+				w.lastFailed = strings.TrimPrefix(op, "CK-")
 			}
 			return err
 		})
@@ -1192,6 +1195,16 @@ var stopStartScripts = func() (l []string) {
 // (the last two: a one-frame commit restarts the fully checkpointed WAL between the capture of the
 // snapshot position and the reader's open of the WAL — Db/MachineSnap.v snapshot_restart_between_refuted,
 // F19, fixed in /repo)
+// snapAfterFailedCkptScripts: a checkpoint call fails after its PRAGMA (the bump is busy), the
+// application commits, and a snapshot is taken before the next sync (F9b; the FULL / RESTART / PASSIVE
+// shapes were repaired in /repo 5f481c7, the TRUNCATE shape is a known finding and not scripted here)
+var snapAfterFailedCkptScripts = []string{
+	"OPEN S W W SW INJ=4 INJW=pt.ckpt.bump CK-FULL WT- SNAP S SW ORACLE W SW ORACLE",
+	"OPEN S W W SW INJ=4 INJW=pt.ckpt.bump CK-RESTART WT- SNAP S SW ORACLE W SW ORACLE",
+	"OPEN S W W SW INJ=5 INJW=pt.ckpt.bump CK-PASSIVE WT- SNAP S SW ORACLE W SW ORACLE",
+	"OPEN S W W SW INJW=pt.ckpt.bump CK-FULL WT- W SNAP S SW ORACLE",
+}
+
 var snapAfterReopenScripts = []string{
 	"OPEN S W W SW REOPEN ACK-PASSIVE OPEN S INJP=snap.owner SNAP S SW ORACLE",
 	"OPEN S W W SW REOPEN ACK-FULL OPEN S INJP=snap.owner SNAP W SW ORACLE",
@@ -1471,7 +1484,10 @@ func main() {
 				err = runC02ShrinkSnapshot(rc, dir, rng)
 			}
 		case "c02":
-			if i%6 == 4 && (i/6)%2 == 1 {
+			if i%6 == 3 && (i/6)%2 == 1 {
+				sc := snapAfterFailedCkptScripts[(i/12)%len(snapAfterFailedCkptScripts)]
+				err = runScriptAs(rc, dir, rng, sc, "4096,0,1000,0,0,0", "snapshot-after-failed-checkpoint")
+			} else if i%6 == 4 && (i/6)%2 == 1 {
 				sc := stopStartScripts[(i/12)%len(stopStartScripts)]
 				err = runScriptAs(rc, dir, rng, sc, "4096,0,1000,0,0,0", "stop-start-app-checkpoint")
 			} else if i%6 == 5 && (i/6)%2 == 1 {
